@@ -17,6 +17,7 @@
 
 import logging
 import sys
+from pathlib import Path
 from typing import IO, Optional, Type, cast
 
 from jinja2 import Environment, FileSystemLoader, Template
@@ -100,12 +101,16 @@ def add_header_to_file(
             )
             out.write("\n")
             path = _determine_license_suffix_path(path)
-            path.touch()
             comment_style = EmptyCommentStyle
 
     try:
         with open(path, "r", encoding="utf-8", newline="") as fp:
             text = fp.read()
+    except FileNotFoundError:
+        # A .license file is only created once there is a header to put in it.
+        if Path(path).suffix != ".license":
+            raise
+        text = ""
     except UnicodeDecodeError:
         out.write(
             _("Error: Could not decode '{path}' as UTF-8").format(path=path)
